@@ -5,7 +5,7 @@ import ast
 import re
 
 from ..context import Context
-from ..load import FuncInfo, chain, norm, own_nodes, parent
+from ..load import FuncInfo, chain, kw, norm, own_nodes, parent
 from .common import NET_OPS, fkey, in_net_class, net_sites, trees, where
 
 TIMEOUT_RE = re.compile(r"^(?P<req>[\w\.]+)\.extensions\.get\('timeout',\{\}\)\.get\('(?P<k>\w+)'(?P<d>,None)?\)$")
@@ -89,7 +89,7 @@ def run(ctx: Context) -> None:
                 allowed = {"connect", "read", "write"}  # negotiation step: any configured key, but not none
             _check_arg(ctx, "C16.R1", tree, owner, s.node, callee, allowed, op, kind)
             n += 1
-        rep.floor("C16.R1", f"network operation call sites in the {tree} tree", n, 19)
+        rep.floor("C16.R1", f"network operation call sites in the {tree} tree", n, 15)
         # pool wait sites
         w = 0
         for f in funcs:
@@ -270,3 +270,47 @@ def _readonly_extensions(ctx: Context) -> None:
     rep.stat("extension_mutation_sites", checked)
     if not checked:
         rep.ob("C16.R4", "both|*|extensions-read-only", True, "httpcore/", "no code path modifies request.extensions or an object nested in it")
+
+
+_core_run = run
+
+
+def _derived_requests(ctx: Context) -> None:
+    """A request the library builds on behalf of the caller's request (the proxied request, the tunnel's CONNECT) is sent by
+    an inner connection that reads the timeouts from ITS request: the derived request must carry the caller's extensions
+    mapping as a whole (the same object, or a copy / spread of all of it) on every path."""
+    rep = ctx.rep
+    n = 0
+    for tree, N in trees(ctx):
+        for f in N.functions():
+            if "request" not in f.param_names():
+                continue
+            for c in own_nodes(f.node):
+                if not (isinstance(c, ast.Call) and norm(c.func) == "Request"):
+                    continue
+                n += 1
+                ext = kw(c, "extensions")
+                key = fkey(tree, f, f"derived-request:{norm(kw(c, 'method')) if kw(c, 'method') is not None else c.lineno}")
+                if ext is None:
+                    rep.ob("C16.R5", key, False, where(f, c), "a request derived from the caller's request is built without `extensions=`: every network operation it performs runs with timeout=None")
+                    continue
+                alts = ctx.prov.expand(ext, f, c)
+                bad = []
+                for a in alts or [ext]:
+                    t = norm(a)
+                    whole = t in ("request.extensions", "dict(request.extensions)", "request.extensions.copy()", "{**request.extensions}")
+                    if not whole and isinstance(a, ast.Dict):
+                        whole = any(k is None and norm(v) == "request.extensions" for k, v in zip(a.keys, a.values)) and \
+                            not any(isinstance(k, ast.Constant) and k.value == "timeout" for k in a.keys)
+                    if not whole:
+                        bad.append(ast.unparse(a)[:80])
+                rep.ob("C16.R5", key, not bad, where(f, c),
+                       "the derived request carries the caller's whole extensions mapping (timeouts included) on every path" if not bad else
+                       f"the derived request's extensions can be `{bad[0]}`: the caller's 'timeout' configuration does not reach the operations performed for it (connect / TLS / CONNECT exchange run unbounded)")
+    rep.floor("C16.R5", "requests derived from the caller's request", n, 2)
+
+
+def run(ctx: Context) -> None:  # noqa: F811
+    _core_run(ctx)
+    ctx.rep.rule("C16.R5", "requests the library derives from the caller's request (proxied request, CONNECT) carry the caller's whole extensions mapping")
+    _derived_requests(ctx)
